@@ -23,7 +23,7 @@ CHECKS = {
             "A hash-order dependence on an input with k operations escapes N processes with probability ~ (1/k!)^(N-1); the corpus has many multi-operation WSDLs.",
             "byte-equality monitor over repeated executions (processes x threads x orders x call histories)"),
     "C13": ("exploration", "L",
-            "Crash/hang monitor: thousands of structure-aware mutants of real and synthetic schemas plus an enumerated grammar of invalid documents (thorough: plus the inputs a coverage-guided fuzzer keeps) run read_xml+write_xml in child processes under catch_unwind, RLIMIT_CPU and an 8 MiB stack; any panic, signal or CPU-limit is a violation.",
+            "Crash/hang monitor: thousands of structure-aware mutants of real and synthetic schemas plus an enumerated grammar of invalid documents (thorough: plus the inputs a coverage-guided fuzzer keeps) run read_xml+write_xml in child processes under catch_unwind, RLIMIT_CPU and an 8 MiB stack; any panic, signal or CPU-limit is a violation. The grammar families whose verdict depends on the size of a stack frame run a second time in a build without optimisation.",
             "An unbounded input space, sampled; the evidence reports outcome distribution and operator classes reached.",
             "process-boundary crash/hang monitor under mutation-, grammar- and (thorough) coverage-guided-fuzzer-generated hostile inputs"),
     "C15": ("fault_enumeration", "L",
